@@ -111,6 +111,9 @@ contract(f"{C}::Calibrator.calibrate", params={"n_batches": "int"}, returns="tup
          props=["C02", "C04", "C09", "C11", "C14", "C18"],
          requires=["n_batches >= 0", "ghost.open_sessions == 0", "not ghost.conv_seen"],
          may_raise=["Exception"],
+         # C11: whatever escapes calibrate() comes out of the model, the loss, a sampler or the scheduler - calibrate itself
+         # raises nothing, in ANY state satisfying the class invariant (so a later call on the same object works)
+         no_own_raise=True,
          ensures=[
              # --- C14
              f"{_M} <= n_batches",
